@@ -11,6 +11,8 @@ mod c04;
 mod c05;
 mod c06;
 mod c07;
+mod c08;
+mod st;
 
 use common::*;
 
@@ -36,6 +38,7 @@ fn main() {
     "C05" => c05::run(&ctx),
     "C06" => c06::run(&ctx),
     "C07" => c07::run(&ctx),
+    "C08" => c08::run(&ctx),
     _ => {
       eprintln!("unknown property {}", prop);
       std::process::exit(2);
